@@ -196,13 +196,16 @@ fn perform(st: &mut State, op: &Json, idx: usize) {
                 .collect();
             let text = stmts.join("\n") + "\n";
             kit::ctx_reset();
+            let mut build_err: Option<String> = None;
             let fm = Module::with_temp_heap(|module| {
                 {
                     let mut eval = Evaluator::new(&module);
                     eval.set_loader(&loader);
                     if let Ok(ast) = kit::parse(&format!("m{idx}.star"), &text) {
                         // Errors are fine: whatever was bound before the failure is exported.
-                        let _ = eval.eval_module(ast, kit::globals());
+                        if let Err(e) = eval.eval_module(ast, kit::globals()) {
+                            build_err = Some(format!("{}", e.without_diagnostic()));
+                        }
                     }
                     if op["extra"].as_bool().unwrap_or(false) {
                         if let Some(v) = module.names().next().and_then(|n| module.get(n.as_str())) {
@@ -218,6 +221,14 @@ fn perform(st: &mut State, op: &Json, idx: usize) {
                 }
             });
             drop(loader);
+            bump(st, "modules_built");
+            if let Some(e) = &build_err {
+                bump(st, "modules_whose_evaluation_ended_in_error");
+                if std::env::var_os("VERIF_DEBUG_OBS").is_some() {
+                    let k: String = format!("err.{}", e.lines().next().unwrap_or("").chars().take(120).collect::<String>());
+                    *st.stats.entry(k).or_insert(0) += 1;
+                }
+            }
             match fm {
                 Ok(fm) => {
                     let recorded = observe_frozen(&fm);
